@@ -5,6 +5,7 @@
   (the textbook binding-power recursion). Tuple, `Vec` and boxed operator tables are one table (a list) in the model;
   that they behave identically is checked on the real crate. Lemmas: Proofs/Lemmas/PrattRefine.lean.
 -/
+import ChumskyModel.Proofs.Lemmas.ExtAll
 import ChumskyModel.Proofs.Lemmas.PrattRefine
 import ChumskyModel.Proofs.Lemmas.PrattRec
 set_option linter.unusedSimpArgs false
@@ -125,6 +126,20 @@ example :
       | _ => (true, 99)) = (false, 1) := by
   decide +kernel
 
+/-- **Pratt tables among other extensions** (`EEnv`: several tables, nested-input parsers, each referring to the others): at a
+    reference to a table the reading IS the textbook binding-power algorithm over atom and operator parsers read by `pegE`
+    again — so an atom may be a nested group, an operator may contain another table — and the machine refines it -/
+theorem c09_extensions_reading (e : EEnv) (n : Nat) (env : Env) (g atom : G) (ops : List PrattOp)
+    (hf : e.find g = some (.pratt atom ops)) (s : SS) (ctx : Val) :
+    pegE e (n + 1) env g s ctx = sPratt (fun g s => pegE e n env g s ctx) env atom ops n 0 s := by
+  simp only [pegE, hf]
+
+theorem c09_extensions_refines (e : EEnv) (n : Nat) (env : Env) (m : Mode) (g : G) (st : St) (hm : env.memoOn = false) :
+    Refines m st.errs st.ctx (runE e n env m g st) (pegE e n env g st.ss st.ctx) :=
+  runE_refines e n env m g st hm
+
+#print axioms c09_extensions_reading
+#print axioms c09_extensions_refines
 #print axioms c09_refines
 #print axioms c09_recursive_refines
 #print axioms c09_recursive_parse
